@@ -415,6 +415,11 @@ def run_c15(pid):
                 p[k] = x
                 p["block_size"] = 16
                 jobs.append(job_of(p, fe, 40, None, tag="core"))
+                # the same construction with a declared total (the constructors divide the total by the channel count / byte width)
+                ch = max(1, min(8, p["channels"]))
+                bps = max(1, min(32, p["bps"]))
+                jobs.append(job_of(p, fe, 40, 40 * upf_of(fe, ch, bps), tag="core-declared"))
+                jobs.append(job_of(p, fe, 40, 7, tag="core-declared"))
     # declared totals: boundary values in the front end's unit
     for fe in FES:
         for ch, bps in ((1, 16), (2, 16), (2, 24), (3, 8)):
